@@ -128,6 +128,27 @@ func init() {
 		return nil
 	})
 
+	// ---- unique: a handle is a canonical pointer per value (pointer identity = value equality) ----
+	registerIntrinsic("unique.Make", func(i *interpreter, fr *frame, fn *ssa.Function, a []value) value {
+		key, ok := a[0].(string)
+		if !ok {
+			panic(unsupported("unique.Make of a non-string value"))
+		}
+		if i.ctx.uniqueTab == nil {
+			i.ctx.uniqueTab = map[string]*value{}
+		}
+		p, ok := i.ctx.uniqueTab[key]
+		if !ok {
+			var cell value = key
+			p = &cell
+			i.ctx.uniqueTab[key] = p
+		}
+		return structure{p}
+	})
+	registerIntrinsic("(unique.Handle[T]).Value", func(i *interpreter, fr *frame, fn *ssa.Function, a []value) value {
+		return *(a[0].(structure)[0].(*value))
+	})
+
 	// ---- context ----
 	registerIntrinsic("context.WithValue", func(i *interpreter, fr *frame, fn *ssa.Function, a []value) value {
 		t := i.lookupType("context", "valueCtx")
